@@ -118,12 +118,33 @@ def run(tier, seed):
             srv = dict(base_srv)
             srv["final"] = {"kind": "faulted", "faults": [rng.choice(sets)["faults"][0]]}
             cplans.append({"id": "u%d" % i, "cfg": base_cfg, "srv": srv})
+        # the outer DER length of both server TSRequests re-encoded in every definite long form, announcing the honest
+        # size, off-by-one sizes and sizes no message can have: a reader that sizes a buffer by the announced length
+        # before the bytes have arrived asks for memory out of proportion to what was received
+        def lenforms(n):
+            out = []
+            for v in (n, n + 1, n - 1, 0, 0xffff, 0x10000, 0x7fffffff, 0x10000000, 0xffffffff):
+                for k in (1, 2, 3, 4):
+                    if v < 256 ** k:
+                        out.append([0x80 + k] + [(v >> (8 * (k - 1 - i))) & 255 for i in range(k)])
+            return out + [[0x80], [0x88] + [0xff] * 8, [0xff]]
+        for target in ("challenge_faults", "final"):
+            for j, lf in enumerate(lenforms(300)):          # the honest requests are 0x30 0x82 hi lo ... (between 256 and 65535 bytes)
+                srv = dict(base_srv)
+                f = [{"op": "splice", "at": 1, "del": 3, "bytes": lf}]
+                if target == "final":
+                    srv["final"] = {"kind": "faulted", "faults": f}
+                else:
+                    srv["challenge_faults"] = f
+                cplans.append({"id": "len-%s-%d" % (target[:5], j), "cfg": base_cfg, "srv": srv})
         ctrace, cblobs, cdecoded, cdec = conn.run_plans(wd, cplans, "c07tls")
         tls_out = {}
         for l in open(ctrace):
             if '"api":"connect"' in l:
                 e = json.loads(l)
                 tls_out[e["res"]] = tls_out.get(e["res"], 0) + 1
+                if e.get("maxreq", 0) > 1 << 20:
+                    v.violation("nla:cssp_connect:alloc", "cssp_connect over TLS: a single allocation of %d bytes was requested while the server had sent less than 2 KiB (largest legitimate buffer: 64 KiB)" % e["maxreq"], {"event": e})
                 if e["res"] not in ("ok", "err"):
                     v.violation("nla:cssp_connect:%s:%s" % (e["res"], re.sub(r"\d+", "#", e.get("ek", "").split("(")[0])[:60]), "cssp_connect over TLS with a faulted server TSRequest: %s/%s" % (e["res"], e.get("ek", "")[:120]), {"event": e})
         outcomes = {}
